@@ -20,4 +20,9 @@ PROPS = {
                       "equality with a sequential reference interpreter for all values in the bound.",
         "level_note": _BOUNDED,
     },
+    "C02": {"module": "harness.c02", "level_text": "TODO", "level_note": _BOUNDED},
+    "C03": {"module": "harness.c03", "level_text": "TODO", "level_note": _BOUNDED},
+    "C04": {"module": "harness.c04", "level_text": "TODO", "level_note": _BOUNDED},
+    "C05": {"module": "harness.c05", "level_text": "TODO", "level_note": _BOUNDED},
+    "C08": {"module": "harness.c08", "level_text": "TODO", "level_note": _BOUNDED},
 }
